@@ -83,8 +83,16 @@ def pmap(func, items, workers=None, chunk=None):
         chunk = max(1, min(256, len(items) // (workers * 8) or 1))
     chunks = [items[i : i + chunk] for i in range(0, len(items), chunk)]
     ctx = mp.get_context("fork")
-    with ctx.Pool(workers, initializer=_init_worker) as pool:
-        out = pool.map(_call_chunk, [(func, c) for c in chunks], chunksize=1)
+    # concurrent.futures (not multiprocessing.Pool): a worker that dies (e.g. killed for memory) breaks the pool with an
+    # exception instead of leaving the map waiting forever
+    from concurrent.futures import ProcessPoolExecutor
+    from concurrent.futures.process import BrokenProcessPool
+
+    try:
+        with ProcessPoolExecutor(max_workers=workers, mp_context=ctx, initializer=_init_worker) as pool:
+            out = list(pool.map(_call_chunk, [(func, c) for c in chunks], chunksize=1))
+    except BrokenProcessPool as e:
+        raise RuntimeError(f"a worker process died while mapping {getattr(func, '__name__', func)} (killed, out of memory?)") from e
     return [y for c in out for y in c]
 
 
